@@ -75,6 +75,21 @@ enum Op {
     /// `re`: the account already has a delegate (re-delegation)
     Delegate { a: usize, b: usize, re: bool },
     Advance(u32),
+    /// No call at all: on a throw-away copy of the state `IDLE` ledgers pass without any
+    /// invocation, then the present values and a selection of past ledgers are compared with the
+    /// model again (oracle `state-survives-idle`). The explored instance is not touched.
+    IdleProbe,
+}
+
+/// Ledgers that pass in an idle probe: beyond every temporary-entry lifetime and every TTL
+/// extension of the votes module and the token bases (VOTES_EXTEND_AMOUNT = balance / owner
+/// extensions = 30 days = 518400 ledgers), below the persistent TTL of `envx::mk_env` (3000000).
+const IDLE: u32 = 600_000;
+
+/// A disagreement found after the idle period: nothing was called in between, so whatever differs
+/// from the model was lost (or appeared) through the passage of time alone.
+fn idle_viol(v: Violation) -> Violation {
+    Violation::new("state-survives-idle", format!("after {IDLE} ledgers without any call [{}] {}", v.oracle, v.detail))
 }
 
 type Row = ([u128; N], u128);
@@ -170,6 +185,8 @@ impl Vw {
                 envx::advance(e, *k);
                 return Ok(None);
             }
+            // not a call: nothing happens on the explored instance (see `idle_check`)
+            Op::IdleProbe => return Ok(None),
         };
         if std::env::var("VH_DEBUG").is_ok() {
             eprintln!("{op:?} -> {:?}", r.as_ref().map(|_| ()));
@@ -236,6 +253,7 @@ impl Vw {
                 m.now += *k;
                 m.in_ledger = 0;
             }
+            Op::IdleProbe => {}
         }
         Ok(())
     }
@@ -367,6 +385,106 @@ impl Vw {
             st.count("states-with->=2-vote-operations-in-one-ledger", 1);
         }
         Ok(())
+    }
+
+    /// The idle probe (see `Op::IdleProbe`): `i` is a throw-away copy of the state the model `m`
+    /// describes, on which `IDLE` ledgers have passed without any call (old now = `m.now`, new now
+    /// = `m.now + IDLE`). Nothing happened in between, hence at the NEW ledger:
+    ///   * balance = voting units, get_votes, get_delegate, get_total_supply are what they were;
+    ///   * ledger 0 and every ledger `base ..= old now - 1` still answer what the dense table says;
+    ///   * every ledger `old now ..= new now - 1` ended with the values that held at the old now —
+    ///     evaluated at old now, old now + 1, the middle of the idle period and new now - 1 (the
+    ///     table is not extended by 600000 rows);
+    ///   * new now, new now + 1 and u32::MAX are still refused.
+    /// Returns the number of comparisons. The sub-oracle names are those of `check`; the caller
+    /// wraps them into `state-survives-idle`.
+    fn idle_check(&self, i: &Inst, m: &Model) -> Result<u64, Violation> {
+        let e = &i.e;
+        let old = m.now;
+        let now = envx::now(e);
+        ensure!(now == old + IDLE, "harness", "ledger {} but the model's ledger + {} = {}", now, IDLE, old + IDLE);
+        let votes = m.votes();
+        let total = m.total();
+        let mut n = 0u64;
+        // --- the present
+        for a in 0..N {
+            let v = view(e, &i.c, "balance", (i.u[a].clone(),).into_val(e)).map_err(viol("balance"))?;
+            let bal: u128 = if self.flavour.nft() {
+                u32::try_from_val(e, &v).expect("u32") as u128
+            } else {
+                let b = i128::try_from_val(e, &v).expect("i128");
+                ensure!(b >= 0, "units=balance", "negative balance {} of {}", b, NAMES[a]);
+                b as u128
+            };
+            let units = e.as_contract(&i.c, || stellar_governance::votes::get_voting_units(e, &i.u[a]));
+            ensure!(bal == m.units[a], "units=balance", "token balance of {} is {}, it was {}", NAMES[a], bal, m.units[a]);
+            ensure!(units == m.units[a], "units=balance", "voting units of {} are {}, they were {}", NAMES[a], units, m.units[a]);
+            let gv = self.q(i, "get_votes", (i.u[a].clone(),).into_val(e))?;
+            ensure!(gv == votes[a], "votes=delegated-units", "get_votes({}) = {}, it was {} (units {:?}, delegates {:?})", NAMES[a], gv, votes[a], m.units, m.deleg);
+            let d = view(e, &i.c, "get_delegate", (i.u[a].clone(),).into_val(e)).map_err(viol("get_delegate"))?;
+            let d = Option::<Address>::try_from_val(e, &d).expect("option address");
+            let d = d.map(|x| i.u.iter().position(|y| *y == x));
+            ensure!(d == m.deleg[a].map(Some), "delegate", "get_delegate({}) = {:?}, the last accepted delegation says {:?}", NAMES[a], d, m.deleg[a]);
+            n += 4;
+        }
+        let ts = self.q(i, "get_total_supply", SVec::new(e))?;
+        ensure!(ts == total, "total=sum(units)", "get_total_supply() = {}, it was {} (units {:?})", ts, total, m.units);
+        n += 1;
+        // --- the past: what the table records (ledger 0, base ..= old-1), then the idle period
+        let mut ledgers: Vec<(u32, Row)> = std::iter::once(0).chain(m.base..old).filter(|l| *l < old).map(|l| (l, m.at(l))).collect();
+        for l in [old, old + 1, old + IDLE / 2, now - 1] {
+            ledgers.push((l, (votes, total)));
+        }
+        for (l, (pv, pt)) in ledgers {
+            let what = if l < old { "recorded before the idle period" } else { "inside the idle period, in which nothing changed" };
+            for a in 0..N {
+                let r = view(e, &i.c, "get_votes_at_checkpoint", (i.u[a].clone(), l).into_val(e));
+                ensure!(r.is_ok(), "past-query-answered", "at ledger {}: get_votes_at_checkpoint({}, {}) refused: {:?}", now, NAMES[a], l, r);
+                let got = u128::try_from_val(e, &r.unwrap()).expect("u128");
+                ensure!(
+                    got == pv[a],
+                    "past-votes",
+                    "at ledger {} (idle since {}): get_votes_at_checkpoint({}, {}) = {}, but at the end of ledger {} ({}) the votes of {} were {}",
+                    now,
+                    old,
+                    NAMES[a],
+                    l,
+                    got,
+                    l,
+                    what,
+                    NAMES[a],
+                    pv[a]
+                );
+            }
+            let r = view(e, &i.c, "get_total_supply_at_checkpoint", (l,).into_val(e));
+            ensure!(r.is_ok(), "past-query-answered", "at ledger {}: get_total_supply_at_checkpoint({}) refused: {:?}", now, l, r);
+            let got = u128::try_from_val(e, &r.unwrap()).expect("u128");
+            ensure!(
+                got == pt,
+                "past-total",
+                "at ledger {} (idle since {}): get_total_supply_at_checkpoint({}) = {}, but at the end of ledger {} ({}) the total was {}",
+                now,
+                old,
+                l,
+                got,
+                l,
+                what,
+                pt
+            );
+            n += (N + 1) as u64;
+        }
+        // --- the new current ledger and the future are still refused
+        for (l, accts) in [(now, vec![A, B, C]), (now + 1, vec![(now as usize) % N]), (u32::MAX, vec![(now as usize + 1) % N])] {
+            for a in accts {
+                let r = view(e, &i.c, "get_votes_at_checkpoint", (i.u[a].clone(), l).into_val(e));
+                ensure!(r.is_err(), "future-refused", "at ledger {}: get_votes_at_checkpoint({}, {}) answered {:?}", now, NAMES[a], l, r);
+                n += 1;
+            }
+            let r = view(e, &i.c, "get_total_supply_at_checkpoint", (l,).into_val(e));
+            ensure!(r.is_err(), "future-refused", "at ledger {}: get_total_supply_at_checkpoint({}) answered {:?}", now, l, r);
+            n += 1;
+        }
+        Ok(n)
     }
 
     /// Seed prefixes (executed and modelled in `fresh`).
@@ -572,6 +690,7 @@ impl World for Vw {
         }
         v.push(Op::Advance(1));
         v.push(Op::Advance(3));
+        v.push(Op::IdleProbe);
         v
     }
 
@@ -585,6 +704,7 @@ impl World for Vw {
             Op::Delegate { re: false, .. } => "delegate",
             Op::Delegate { re: true, .. } => "redelegate",
             Op::Advance(_) => "advance",
+            Op::IdleProbe => "idle-probe",
         }
         .to_string()
     }
@@ -598,6 +718,14 @@ impl World for Vw {
     }
 
     fn step(&self, i: &mut Inst, m: &mut Model, op: &Op, cx: &mut StepCtx<Self>) -> Result<bool, Violation> {
+        if matches!(op, Op::IdleProbe) {
+            let copy = cx.rebuild();
+            envx::advance(&copy.e, IDLE);
+            let n = self.idle_check(&copy, m).map_err(idle_viol)?;
+            cx.stats.count("idle-probes", 1);
+            cx.stats.count("getter-comparisons-after-long-idle", n);
+            return Ok(false);
+        }
         // A refusal is always compatible with this property (it restricts what accepted
         // operations and queries may do); the engine verifies that it changed nothing.
         let Ok(seq_id) = self.exec(i, op) else { return Ok(false) };
@@ -634,14 +762,14 @@ fn main() {
     main_with(
         "C13",
         "model_checking",
-        "level-BFS over histories of mint / burn / transfer (incl. self-transfer, full balance; holder and pre-approved-spender paths) / delegate(a->b incl. self and re-delegation) / advance(1|3) on 3 accounts, amounts {1,2,balance} (thorough: +0, balance+1), on the real FungibleVotes wrapper, the fungible-votes example and a NonFungibleVotes wrapper (explicit and sequential ids); seeds {empty at ledger 10, empty at ledger 0 (no ledger has ended yet), a 5-checkpoint history ending at ledger 16, thorough: balance ~ i128::MAX}; after every accepted operation: balance = voting units, get_votes = sum of units of current delegators, total = sum of units, get_delegate, and get_votes_at_checkpoint / get_total_supply_at_checkpoint for ledger 0 and EVERY ledger start-1..now-1 against a dense end-of-ledger table, queries at now / now+1 / u32::MAX refused; states merged by canonical storage digest + ledger, with the model (incl. its whole past table) as differential oracle at merge; non-trivial = distinct state reached through >=1 accepted operation",
+        "level-BFS over histories of mint / burn / transfer (incl. self-transfer, full balance; holder and pre-approved-spender paths) / delegate(a->b incl. self and re-delegation) / advance(1|3) on 3 accounts, amounts {1,2,balance} (thorough: +0, balance+1), on the real FungibleVotes wrapper, the fungible-votes example and a NonFungibleVotes wrapper (explicit and sequential ids); seeds {empty at ledger 10, empty at ledger 0 (no ledger has ended yet), a 5-checkpoint history ending at ledger 16, thorough: balance ~ i128::MAX}; after every accepted operation: balance = voting units, get_votes = sum of units of current delegators, total = sum of units, get_delegate, and get_votes_at_checkpoint / get_total_supply_at_checkpoint for ledger 0 and EVERY ledger start-1..now-1 against a dense end-of-ledger table, queries at now / now+1 / u32::MAX refused; idle probe in every expanded state of every world: on a rebuilt copy 600000 ledgers pass without any call (beyond every temporary lifetime and VOTES_EXTEND_AMOUNT = 518400), then, at the new ledger, balances, voting units, get_votes, get_delegate and the total are unchanged, ledger 0 and every recorded ledger still answer what the table says, the ledgers old now / old now+1 / the middle of the idle period / new now-1 answer the values that held at the old now, and new now / new now+1 / u32::MAX are refused; states merged by canonical storage digest + ledger, with the model (incl. its whole past table) as differential oracle at merge; non-trivial = distinct state reached through >=1 accepted operation",
         |tier: Tier, r: &mut Runner| {
             let th = tier == Tier::Thorough;
             // (flavour, seed, depth, wall cap in s). Measured cost per transition: ~0.7 ms from the
             // empty seed, ~3 ms from the long-history seed (15-17 replayed calls + ~45 queries).
             // Whole plan: quick ~110 CPU-s (~100k transitions), thorough ~4000 CPU-s (~3.5M
             // transitions); the caps only bite on a machine that is busy with other work (their
-            // sums, 34 s and 540 s, leave room for the engine's per-chunk overshoot).
+            // sums, 40 s and 540 s, leave room for the engine's per-chunk overshoot).
             use Flavour::*;
             let plan: Vec<(Flavour, usize, usize, u64)> = if th {
                 vec![
@@ -663,7 +791,9 @@ fn main() {
             } else {
                 vec![
                     (Wrapper, 0, 4, 7),
-                    (Wrapper, 1, 3, 8),
+                    // (3.3-3.8 s on a free machine incl. 490 idle probes; 7.9 s measured next to a
+                    //  16-thread job)
+                    (Wrapper, 1, 3, 10),
                     (WrapperSpender, 0, 3, 3),
                     (WrapperSpender, 1, 2, 2),
                     (Example, 0, 3, 2),
@@ -684,6 +814,8 @@ fn main() {
                     &["burn", "burn_from", "transfer", "transfer_from", "redelegate"],
                 );
                 rep.require_counter(&[
+                    "idle-probes",
+                    "getter-comparisons-after-long-idle",
                     "past-queries",
                     "future-queries-refused",
                     "self-delegations",
